@@ -307,21 +307,31 @@ def run_history(case):
 
     def build_state(hist):
         m = build(spec)
+        m._vmc_error = None
         for a, b in hist:
             fd = None if case["fit"] is None else [None if f is None else dict(f) for f in case["fit"]]
-            m.fit(shuffles[b](D[a]), fd)
+            try:
+                m.fit(shuffles[b](D[a]), fd)
+            except Exception as e:   # a (re-)fit with valid data must not fail; reported by check()
+                m._vmc_error = f"{type(e).__name__}: {str(e)[:120]}"
+                break
         return m
 
     def enabled(hist, st):
         return events
 
     def canon(m):
+        if getattr(m, "_vmc_error", None):
+            return "error:" + m._vmc_error
         try:
             return history.digest(snapshot(m), digits=6)
         except Exception:
             return "unfitted"
 
     def check(hist, ev, prev, st):
+        if getattr(st, "_vmc_error", None):
+            return [{"sig": {"check": "refit", "clause": "refit_raises", "slicer": spec["slicers"][0][0]},
+                     "detail": {"history": hist + [ev], "error": st._vmc_error}, "case": case}]
         ok, where = snap_equal(fresh[ev[0]], snapshot(st), 2e-3 if not case["exact"] else 1e-9)
         if ok:
             return []
